@@ -6,6 +6,7 @@ import (
 	"reflect"
 	"strconv"
 	"strings"
+	"sync"
 
 	"github.com/flosch/pongo2/v6"
 )
@@ -835,6 +836,106 @@ func c8Run(c *C) {
 	if !c.Failed() {
 		c8TwinTypes(c, r)
 	}
+	if !c.Failed() && c.Idx%100 == 57 {
+		c8ConcurrentReceivers(c)
+	}
+}
+
+// Receivers of different Go types behind ONE name, whose methods and fields of the same name sit at different
+// positions of their method sets / field lists.
+type C8RecvA struct {
+	Zeta string
+	Name string
+}
+
+func (r C8RecvA) Alpha() string { return "A.alpha" }
+func (r C8RecvA) Label() string { return "A.label:" + r.Name }
+
+type C8RecvB struct {
+	Name string
+	Zeta string
+	More int
+}
+
+func (r C8RecvB) Label() string { return "B.label:" + r.Name }
+func (r C8RecvB) Other() string { return "B.other" }
+func (r C8RecvB) Zz() string    { return "B.zz" }
+
+type C8RecvC struct{ Label, Name string }
+
+// c8ConcurrentReceivers: eight goroutines execute ONE compiled template at the same time, each call with a receiver of
+// another dynamic type behind the same name (a fixed number of calls; the expected texts are literals). A step resolves
+// against the value it is given in THIS execution.
+func c8ConcurrentReceivers(c *C) {
+	const src = "{{ x.Label }};{{ x.Name }};{{ x.Zeta }};{% for i in two %}{{ x.Label }}{% endfor %};{{ l.0.Label }};{{ m.k.Name }}"
+	set, _ := newSet(emptySetFiles)
+	tpl, err := set.FromString(src)
+	if err != nil {
+		c.Fail("wrong-value", D{"source": src, "compile_err": err.Error()})
+		return
+	}
+	mk := func(kind int) (pongo2.Context, string) {
+		var x any
+		var label string
+		switch kind % 4 {
+		case 0:
+			x, label = C8RecvA{"za", "na"}, "A.label:na"
+		case 1:
+			x, label = C8RecvB{"nb", "zb", 1}, "B.label:nb"
+		case 2:
+			x, label = &C8RecvA{"zpa", "npa"}, "A.label:npa"
+		default:
+			x, label = C8RecvC{"C-field-label", "nc"}, "C-field-label"
+		}
+		name, zeta := map[int]string{0: "na", 1: "nb", 2: "npa", 3: "nc"}[kind%4], map[int]string{0: "za", 1: "zb", 2: "zpa", 3: ""}[kind%4]
+		want := label + ";" + name + ";" + zeta + ";" + label + label + ";" + label + ";" + name
+		return pongo2.Context{"x": x, "two": []int{1, 2}, "l": []any{x}, "m": map[string]any{"k": x}}, want
+	}
+	iters := 1500
+	if c.Thorough() {
+		iters = 10000
+	}
+	var wg sync.WaitGroup
+	var mu sync.Mutex
+	var failure D
+	start := make(chan struct{})
+	for g := 0; g < 8; g++ {
+		wg.Add(1)
+		go func(g int) {
+			defer wg.Done()
+			defer func() {
+				if rec := recover(); rec != nil {
+					mu.Lock()
+					if failure == nil {
+						failure = D{"source": src, "panic": fmt.Sprint(rec)}
+					}
+					mu.Unlock()
+				}
+			}()
+			<-start
+			for it := 0; it < iters; it++ {
+				ctx, want := mk(g + it)
+				out, xerr := tpl.Execute(ctx)
+				if xerr != nil || out != want {
+					mu.Lock()
+					if failure == nil {
+						failure = D{"source": src, "receiver_type": fmt.Sprintf("%T", ctx["x"]), "output": q(out), "expected": q(want), "error": errStr(xerr), "goroutine": g, "call": it,
+							"why": "eight goroutines were executing the compiled template with receivers of four different Go types at the same time"}
+					}
+					mu.Unlock()
+					return
+				}
+			}
+		}(g)
+	}
+	close(start)
+	wg.Wait()
+	c.Eval(8 * iters)
+	if failure != nil {
+		c.Fail("wrong-value", failure)
+		return
+	}
+	c.Cover("concurrent_receivers_of_different_types")
 }
 
 // Two DISTINCT struct types that print the same type name (function-local types, like model.User of two packages):
